@@ -11,7 +11,7 @@ CHECKS = {
    ref="DESIGN.md section 5, C01"),
  "C10": dict(
    text="TLC checks that the streaming UTF-8 decoder model (carry buffer, try_complete_offsets, process loop, finish) refines lossy decoding per Unicode Table 3-7 for all byte strings over class representatives under every chunking, and that the decode_to_sink loop loses/duplicates nothing for every abstract encoding_rs decoder script; every explored input is replayed on the real Utf8LossyDecoder under all its chunkings, random inputs and all 40 encodings are recorded from the real code and judged by the TLA+ trace specifications (L0 Lossy / logged one-shot decode). Tree clause: markup bytes with ill-formed sequences spliced in are fed through parse_document().from_utf8() in one piece, byte by byte and under random cuts, and the delivered tree is judged by the L0 parser applied to L0 Lossy of the concatenated bytes (Trace_Parse).",
-   note="Bounds: byte strings <= 4 (quick) / 5 (thorough) over 10/18 class representatives; abstract decoder scripts over 3/4 input bytes; encoding_rs tables are inputs (one-shot decode logged).",
+   note="Bounds: byte strings <= 4 over 10 (quick) / 18 (thorough) class representatives; abstract decoder scripts over 3/4 input bytes; encoding_rs tables are inputs (one-shot decode logged).",
    ref="DESIGN.md section 5, C10"),
  "C13": dict(
    text="TLC explores the complete bounded state graph of the queue (L1 byte-level eat/pop_except_from refine the L0 flat-string meaning; conservation and no-empty-buffer invariants); every transition of that graph is replayed on the real BufferQueue and every random history recorded from the real queue is validated event by event against the L0 specification.",
